@@ -570,6 +570,19 @@ class Schema(ResolverMap):
         # Invalidate validation
         self._is_valid = None
 
+    def _applicable_resolvers(self, target: "Schema") -> ResolverMap:
+        # The registries may still name fields which a transform has renamed or
+        # removed since they were registered (the field objects carry their
+        # resolvers anyway): only the entries which still apply are replayed.
+        applicable = ResolverMap()
+        for typename, fieldname, resolver in _registered(self.resolvers, target):
+            applicable.register_resolver(typename, fieldname, resolver)
+        for typename, fieldname, resolver in _registered(
+            self.subscriptions, target
+        ):
+            applicable.register_subscription(typename, fieldname, resolver)
+        return applicable
+
     def clone(self) -> "Schema":
         cloned = Schema(
             query_type=self.query_type,
@@ -599,11 +612,21 @@ class Schema(ResolverMap):
             },
         )
 
-        cloned.merge_resolvers(self)
+        cloned.merge_resolvers(self._applicable_resolvers(cloned))
         cloned.default_resolver = self.default_resolver
         cloned.default_resolvers.update(self.default_resolvers)
 
         return cloned
+
+
+def _registered(registry, schema):
+    # Entries of a resolver registry which still name a field of `schema`.
+    for typename, by_field in registry.items():
+        type_ = schema.types.get(typename)
+        if isinstance(type_, ObjectType):
+            for fieldname, resolver in by_field.items():
+                if fieldname in type_.field_map:
+                    yield typename, fieldname, resolver
 
 
 def _clone_field(field):
